@@ -1,10 +1,12 @@
 (* C03 — nonlinear terms equal the alias-free projection of the documented operator.
    Model: Nonlin/Conv.v, Nonlin/Terms.v (hand-written from exponax/nonlin_fun/*.py and the two reaction nonlinearities;
-   tied to the code by the exact-rational correspondence over every term, D, N covering all residues mod 12, both fractions).
+   tied to the code by the exact-rational correspondence over every term, D, N covering all residues mod 12, both fractions, and by
+   C03_code_terms_are_model_terms: the terms are re-translated from the source on every run (harness/translate/nonlin.py -> Gen/NonlinFuns.v)
+   and proved equal to the hand-written ones).
    Pseudo-spectral products on the N-grid are circular convolutions (convolution theorem, C03_convolution_theorem, per axis);
    the documented products of band-limited fields are linear convolutions.  All theorems are for every D, every N, every state. *)
 From Coq Require Import ZArith QArith List Bool Lia.
-From EXV Require Import Base.Scalar Base.FieldLemmas Layout.Freq Layout.FreqProofs DFT.DFT1 Nonlin.Conv Nonlin.ConvProofs Nonlin.Terms Nonlin.TermsProofs IC.Normalize DFT.DFTD DFT.BandLink.
+From EXV Require Import Base.Scalar Base.FieldLemmas Layout.Freq Layout.FreqProofs DFT.DFT1 Nonlin.Conv Nonlin.ConvProofs Nonlin.Terms Nonlin.TermsProofs IC.Normalize DFT.DFTD DFT.BandLink Gen.NonlinFuns Tie.NonlinTie.
 Import ListNotations.
 Local Open Scope fld_scope.
 Ltac splits := repeat match goal with |- _ /\ _ => split end.
@@ -117,6 +119,68 @@ Proof.
   - first [apply gray_scott_lift; assumption | apply (gray_scott_lift F M P2 P2L P3 P3L H2 H3)].
 Qed.
 Print Assumptions C03_cubic_terms_are_documented.
+
+(* the model terms ARE the code: every __call__ under exponax/nonlin_fun and the private nonlinear functions of the reaction steppers,
+   re-translated from the source on every run (Gen/NonlinFuns.v, same vocabulary M / P2 / P3 / dc as Nonlin/Terms.v, the mask applied
+   where the code applies it, factors and sums in the order of the code), equal the hand-written terms of Nonlin/Terms.v for every
+   coefficient, every flag value, every state and every mode k, with M, P2, P3 the operators of Nonlin/Conv.v (the laws of the operators
+   that the equalities need are proved in Tie/NonlinTie.v).  Premises: the mask keeps the mean mode (0 <= K); for the multi-channel
+   conservative convection only (u[None, :] * u[:, None] lists the factors in the other order than the model) the commutativity of the
+   circular product, proved for modes k with one entry per axis and 2K < N.  Kolmogorov variants: the term plus the stored forcing array.
+   BelousovZhabotinsky (not exported, no term in Nonlin/Terms.v): against the hand-written term of Tie/NonlinTie.v. *)
+Theorem C03_code_terms_are_model_terms : forall (F : FieldT) (D : nat) (N Kc : Z) (ii s ND : F), (0 <= Kc)%Z ->
+  let M := msk F Kc in let P2 := prod2 F D N Kc in let P3 := prod3 F D N Kc in
+  let Z := fzero F in
+  forall (b b0 b1 b2 c0 c1 c2 c3 f kr : F) (zf : bool) (u inj : field F) (us injs : list (field F)) (i : nat) (k : idx),
+    gen_zero F M P2 P3 ii s D ND u k = Z k
+    /\ gen_polynomial_4 F M P2 P3 ii s D ND c0 c1 c2 c3 u k = polynomial F M P2 P3 ND c0 c1 c2 c3 u k
+    /\ gen_polynomial_3 F M P2 P3 ii s D ND c0 c1 c2 u k = polynomial F M P2 P3 ND c0 c1 c2 0 u k
+    /\ gen_polynomial_2 F M P2 P3 ii s D ND c0 c1 u k = polynomial F M P2 P3 ND c0 c1 0 0 u k
+    /\ nth 0 (gen_convection F M P2 P3 ii s D ND b true true us) Z k = conv_sc_cons F P2 ii s D b (nth 0 us Z) k
+    /\ nth 0 (gen_convection F M P2 P3 ii s D ND b true false us) Z k = conv_sc_noncons F P2 ii s D b (nth 0 us Z) k
+    /\ ((0 < N)%Z -> (2 * Kc < N)%Z -> length k = D ->
+        nth i (gen_convection F M P2 P3 ii s D ND b false true us) Z k = nth i (conv_mc_cons F P2 ii s D b us) Z k)
+    /\ nth i (gen_convection F M P2 P3 ii s D ND b false false us) Z k = nth i (conv_mc_noncons F P2 ii s D b us) Z k
+    /\ gen_gradient_norm F M P2 P3 ii s D ND b zf u k = gradient_norm F P2 ii s D b zf u k
+    /\ nth 0 (gen_general_nonlinear F M P2 P3 ii s D ND [b0; b1; b2] zf [u]) Z k = general_nonlinear F M P2 P3 ii s D ND b0 b1 b2 zf u k
+    /\ gen_vorticity_conv F M P2 P3 ii s D ND b u k = vorticity_conv F P2 ii s D b u k
+    /\ gen_vorticity_conv_kolmogorov F M P2 P3 ii s D ND b inj u k = vorticity_conv F P2 ii s D b u k + inj k
+    /\ nth i (gen_leray F M P2 P3 ii s D ND us) Z k = nth i (leray F ii s D us) Z k
+    /\ nth i (gen_projected_conv F M P2 P3 ii s D ND us) Z k = nth i (projected_conv F P2 ii s D us) Z k
+    /\ ((i < 3)%nat -> nth i (gen_projected_conv_kolmogorov F M P2 P3 ii s D ND injs us) Z k = nth i (projected_conv F P2 ii s D us) Z k + nth i injs Z k)
+    /\ nth 0 (gen_cahn_hilliard F M P2 P3 ii s D ND b us) Z k = cahn_hilliard F P3 ii s D b (nth 0 us Z) k
+    /\ nth i (gen_gray_scott F M P2 P3 ii s D ND f kr us) Z k = nth i (gray_scott F M P3 ND f kr (nth 0 us Z) (nth 1 us Z)) Z k
+    /\ nth i (gen_belousov_zhabotinsky F M P2 P3 ii s D ND us) Z k
+       = nth i (belousov_zhabotinsky F M P2 (nth 0 us Z) (nth 1 us Z) (nth 2 us Z)) Z k.
+Proof.
+  intros F D N Kc ii s ND HK M P2 P3 Z b b0 b1 b2 c0 c1 c2 c3 f kr zf u inj us injs i k.
+  assert (Lext : forall a a' b b' k, (forall x, a x = a' x) -> (forall x, b x = b' x) -> P2 a b k = P2 a' b' k) by (intros; apply prod2_ext; assumption).
+  assert (Lidem : forall a k, M (M a) k = M a k) by (intros; apply msk_idem).
+  assert (Lmean : forall c k, M (gen_const_hat F M P2 P3 ii s D ND c) k = gen_const_hat F M P2 P3 ii s D ND c k) by (intros; apply msk_mean; exact HK).
+  assert (L2M : forall a b k, P2 (M a) (M b) k = P2 a b k) by (intros; apply prod2_msk).
+  assert (L3M : forall a b c k, P3 (M a) (M b) (M c) k = P3 a b c k) by (intros; apply prod3_msk).
+  destruct (polynomial_tie F M P2 P3 ii s D ND Lmean c0 c1 c2 c3 u k) as (Q4 & Q3 & Q2).
+  splits.
+  - apply zero_tie.
+  - exact Q4.
+  - exact Q3.
+  - exact Q2.
+  - apply convection_sc_cons_tie.
+  - apply convection_sc_noncons_tie.
+  - intros HN H2 Hk. apply convection_mc_cons_tie. intros a c. apply prod2_comm; assumption.
+  - apply convection_mc_noncons_tie.
+  - apply gradient_norm_tie.
+  - apply general_nonlinear_tie; assumption.
+  - apply vorticity_conv_tie; assumption.
+  - apply vorticity_conv_kolmogorov_tie; assumption.
+  - apply leray_tie.
+  - apply projected_conv_tie.
+  - intros Hi. apply projected_conv_kolmogorov_tie. exact Hi.
+  - apply cahn_hilliard_tie; assumption.
+  - apply gray_scott_tie; assumption.
+  - apply belousov_zhabotinsky_tie; assumption.
+Qed.
+Print Assumptions C03_code_terms_are_model_terms.
 
 (* non-vacuity: N = 12, K = K(12, 2/3) = 3 satisfies 3K < N; N = 12, K(12, 1/2) = 2 satisfies 4K < N *)
 Example C03_ex : dealias_K 2 3 12 = 3%Z /\ dealias_K 1 2 12 = 2%Z /\ (3 * 3 < 12)%Z /\ (4 * 2 < 12)%Z.
